@@ -151,6 +151,14 @@ class C10(Check):
                 out.append({'concurrent': conc, 'elements': [c('ret', 1), c('ret', 0), c('rpc', 1), c('ret', 0, 'notification')], 'mw_suspend': None, 'eh_suspend': None,
                             'schedule': 'all', 'id_style': ids})
         out.append({'concurrent': True, 'elements': [c('w.scratch', 2), c('w.scratch', 1), c('w.scratch', 2, 'notification')], 'mw_suspend': None, 'eh_suspend': None, 'schedule': 'all'})
+        # long batches (positions with two and three digits): few suspension points, so every schedule is still enumerated
+        for n in (12, 23, 101):
+            for conc in (True, False):
+                for ids in ('ascending', 'descending'):
+                    els = [c('ret', 0) for _ in range(n)]
+                    els[1], els[3], els[5], els[n - 2] = c('ret', 1), c('rpc', 0, 'notification'), c('exc', 0), c('ret', 1)
+                    els[7] = c('plain', 0)
+                    out.append({'concurrent': conc, 'elements': els, 'mw_suspend': None, 'eh_suspend': None, 'schedule': 'all', 'id_style': ids})
         return out
 
     # ---- one schedule -----------------------------------------------------------------------------------
